@@ -434,6 +434,8 @@ def solve(smt_text: str, expect: str, budget: int, want_model_for=None, workdir=
                 break
         if sat_seen is not None:
             return dict(result="sat", solver=sat_seen[0], seconds=total, raw=sat_seen[1], tried=tried)
+        if tried and all(t[1].startswith("error") for t in tried):
+            return dict(result="unknown", solver=None, seconds=total, raw="", tried=tried, solver_error=True)
         return dict(result="unknown", solver=None, seconds=total, raw="", tried=tried)
     finally:
         try:
